@@ -35,7 +35,7 @@ def nontrivial(items, res):
 
 
 def alphabet(tier):
-    names = ['addiL', 'liLab', 'liPos', 'liOff', 'luiHi', 'addiLo', 'dwL', 'dwOff', 'packPos', 'packOff']
+    names = ['addiL', 'liLab', 'liPos', 'liOff', 'luiHi', 'addiLo', 'dwL', 'dwOff', 'packPos', 'packOff', 'liPosShl', 'dwPosAnd']
     if tier == 'thorough':
         names += ['lwL', 'addiOff']
     syms = (progs.pick(progs.LABELARITH, *names) + progs.pick(progs.CODE_C, 'addi8') + progs.pick(progs.VAR, 'li1') +
